@@ -453,6 +453,60 @@ fn check_pool(ctx: &mut Ctx, cfgs: &[RCfg], trace: &[Act], w: &World) {
             }
         }
     }
+    // nested inputs: merges of two pool updates (non-adjacent ones carry an internal gap) used as
+    // inputs of a further merge, against one-by-one application
+    {
+        let pool_items: Vec<&Item> = items.iter().filter(|i| i.label.starts_with('u')).collect();
+        let mut derived: Vec<Item> = Vec::new();
+        for i in 0..pool_items.len() {
+            for j in (i + 1)..pool_items.len() {
+                if let (Ok(v1), Ok(v2)) = (merge(&[pool_items[i], pool_items[j]], false), merge(&[pool_items[i], pool_items[j]], true)) {
+                    derived.push(Item { v1, v2, label: format!("m({},{})", pool_items[i].label, pool_items[j].label) });
+                }
+            }
+        }
+        let all: Vec<&Item> = derived.iter().chain(pool_items.iter().copied()).collect();
+        for x in &derived {
+            for y in &all {
+                if ctx.out_of_time() {
+                    return;
+                }
+                for v2 in [false, true] {
+                    let labels = vec![x.label.clone(), y.label.clone()];
+                    let case = json!({"cfgs": cfgs, "trace": trace, "nested_selection": labels});
+                    let cj = || case.clone();
+                    let res = ctx.exec(&cj, |ctx| -> Result<(), (String, String)> {
+                        ctx.count("transitions", 3);
+                        let merged = merge(&[x, *y], v2).map_err(|e| ("merge-fails".to_string(), e))?;
+                        let a = fresh();
+                        a.apply(&merged, v2).map_err(|e| ("merged-not-appliable".to_string(), e))?;
+                        let b = fresh();
+                        for it in [x, *y] {
+                            b.apply(if v2 { &it.v2 } else { &it.v1 }, v2).map_err(|e| ("input-not-appliable".to_string(), e))?;
+                        }
+                        let (ea, eb) = (effect(&a), effect(&b));
+                        if ea != eb {
+                            let healed = ea.pending && eb.pending && heals(&[a, b], &items);
+                            return Err((
+                                if healed {
+                                    "merge-vs-sequential-transient-difference-while-gap-open".to_string()
+                                } else if ea.pending || eb.pending {
+                                    "merge-vs-sequential-differs-with-gap".to_string()
+                                } else {
+                                    "merge-vs-sequential-differs".to_string()
+                                },
+                                format!("nested inputs {:?} v2={}: merged gives {} but one-by-one gives {}", labels, v2, show_effect(&ea), show_effect(&eb)),
+                            ));
+                        }
+                        Ok(())
+                    });
+                    if let Some(Err((class, msg))) = res {
+                        ctx.violation("algebra", &class, msg, cj());
+                    }
+                }
+            }
+        }
+    }
     // (a) on the authors' end states: selections of length <= 2
     for r in 0..cfgs.len() {
         for a in 0..n {
